@@ -71,7 +71,9 @@ static void* sim_new(std::size_t n)
     if (n > sim::g_new_cap) { ++sim::g_new_refused; throw std::bad_alloc(); }
     void* p = std::malloc(n ? n : 1);
     if (!p) throw std::bad_alloc();
+#ifndef SIM_NO_POISON_FILL
     std::memset(p, sim::g_new_poison, n);
+#endif
     return p;
 }
 void* operator new(std::size_t n) { return sim_new(n); }
